@@ -167,6 +167,16 @@ CHECKS.update({
     },
 })
 
+CHECKS.update({
+    "C18": {
+        "category": "model_checking",
+        "text": "SyncAsync.tla walks PAIRS of event logs in lock step: every single-caller scenario of the corpus (sequential pool histories with a fault at every operation, scripted nested histories with virtual time and the response-object protocol, the Establish case matrix with failure scripts, request shapes on the wire) is run through the async classes and through the sync classes and TLC requires the same operations with the same arguments, the same bytes (length + crc32), the same results and exception classes and the same pool / connection state strings at every step. Side check outside the family, reported under its own key: httpcore/_sync is compared over the full length of every file with a fresh run of the repository's own unasync rules.",
+        "design_ref": "DESIGN.md 4.9, 5 (C18)",
+        "technique": "TLA+ lock-step trace validation of sync/async log pairs (TLC) + translation diff side check",
+        "note": "Trusted: TLC 1.8.0; the two drivers present the same simulated network to both variants; crc32 digests stand for byte strings. Single-caller scenarios only.",
+    },
+})
+
 NOT_YET = {
     "C01": "not claimed yet: Pool/H2Conn trace clauses for response ownership are under construction",
     "C02": "not claimed yet: Framing module under construction",
